@@ -15,11 +15,12 @@
 //!   parents_ok=0/1        leading `..` segments of the reference <= parents
 use sophia_iri::relativize::Relativizer;
 use sophia_iri::resolve::BaseIri;
-use sophia_iri::Iri;
+use sophia_iri::{Iri, IriRef};
 use vhcore::util::*;
 use vhcore::GenCtx;
 
-const PARENTS: [u8; 6] = [0, 1, 2, 3, 4, 255];
+/// parent-step limits: every small value up to the deepest generated base (12 segments), and the maximum
+const PARENTS: [u8; 12] = [0, 1, 2, 3, 4, 5, 6, 7, 9, 12, 254, 255];
 const FAMILY: [&str; 7] = ["b", "c", "", ".", "..", "x:y", "é"];
 
 #[derive(Clone, Debug)]
@@ -61,10 +62,30 @@ impl P {
 }
 
 const SCHEMES: [&str; 4] = ["http", "x", "x-ample", "urn"];
-const AUTHS: [&str; 9] = ["a", "", "é", "ab", "a.b:80", "u@h", "[::1]", "ê", "a:8"];
-const SEGS: [&str; 16] = ["b", "c", "", ".", "..", "x:y", "é", "ê", "bc", "b;p", "d", "%2e", "e", ":", "b.", "..."];
-const QUERIES: [&str; 8] = ["", "q", "q/r", "q?r", "é", "a/../b", "ê", "q/"];
-const FRAGS: [&str; 7] = ["", "f", "f/g?h", "é", "f#", "ê", "/"];
+// multi-byte characters of every UTF-8 width, with siblings sharing 1, 2 and 3 leading octets:
+//   é C3A9 / ê C3AA;  € E282AC / ₠ E282A0 / ‰ E280B0;  𝄞 F09D849E / 𝄟 F09D849F / 𝅘 F09D8598 / 😀 F09F9880
+const AUTHS: [&str; 14] = ["a", "", "é", "ab", "a.b:80", "u@h", "[::1]", "ê", "a:8", "€", "a€", "₠", "𝄞", "a𝄟"];
+const SEGS: [&str; 24] = [
+    "b", "c", "", ".", "..", "x:y", "é", "ê", "bc", "b;p", "d", "%2e", "e", ":", "b.", "...", "€", "₠", "‰", "𝄞", "𝄟", "𝅘", "b€", "😀",
+];
+const QUERIES: [&str; 12] = ["", "q", "q/r", "q?r", "é", "a/../b", "ê", "q/", "€", "₠", "𝄞", "g=/x/€"];
+const FRAGS: [&str; 9] = ["", "f", "f/g?h", "é", "f#", "ê", "/", "€", "𝄟"];
+
+/// characters that share their leading UTF-8 octet(s) with `c`
+fn siblings(c: char) -> &'static [char] {
+    match c {
+        'é' => &['ê'],
+        'ê' => &['é'],
+        '€' => &['₠', '‰'],
+        '₠' => &['€', '‰'],
+        '‰' => &['€', '₠'],
+        '𝄞' => &['𝄟', '𝅘', '😀'],
+        '𝄟' => &['𝄞', '𝅘', '😀'],
+        '𝅘' => &['𝄞', '😀'],
+        '😀' => &['𝄞', '𝅘'],
+        _ => &[],
+    }
+}
 
 fn opt<'a>(ctx: &mut GenCtx, num: usize, den: usize, xs: &'a [&'a str]) -> Option<String> {
     if ctx.rng.chance(num, den) { Some(ctx.rng.pick(xs).to_string()) } else { None }
@@ -82,13 +103,15 @@ fn seg(ctx: &mut GenCtx) -> String {
 fn gen_base(ctx: &mut GenCtx) -> P {
     let scheme = ctx.rng.pick(&SCHEMES[..]).to_string();
     let auth = if ctx.rng.chance(3, 5) { Some(ctx.rng.pick(&AUTHS[..]).to_string()) } else { None };
-    let n = match ctx.rng.below(10) {
+    let n = match ctx.rng.below(12) {
         0 => 0,
         1 | 2 => 1,
         3 | 4 | 5 => 2,
         6 | 7 => 3,
         8 => 4,
-        _ => 6,
+        9 => 6,
+        10 => ctx.rng.range(7, 8),
+        _ => ctx.rng.range(9, 12), // deep bases: more segments than any small parent limit
     };
     let rooted = if auth.is_some() { n > 0 || ctx.rng.chance(1, 2) } else { ctx.rng.chance(2, 3) };
     let segs: Vec<String> = (0..n).map(|_| seg(ctx)).collect();
@@ -108,7 +131,39 @@ fn cut_at_char(s: &str, k: usize) -> &str {
 /// an IRI related to `b` (the shapes of the property's quantifier), and the name of the shape
 fn derive(ctx: &mut GenCtx, b: &P) -> (String, &'static str) {
     let bs = b.render();
-    match ctx.rng.below(16) {
+    match ctx.rng.below(19) {
+        16..=18 => {
+            // a multi-byte character of the base replaced by a sibling sharing its leading octet(s): the common
+            // byte prefix ends INSIDE a character; what follows is kept, dropped, or replaced
+            let chars: Vec<char> = bs.chars().collect();
+            let mb: Vec<usize> = (0..chars.len()).filter(|&i| !siblings(chars[i]).is_empty()).collect();
+            if mb.is_empty() {
+                return (gen_base(ctx).render(), "independent");
+            }
+            // prefer the last character of a component (path / query / authority end)
+            let ends: Vec<usize> = mb
+                .iter()
+                .copied()
+                .filter(|&i| i + 1 == chars.len() || matches!(chars[i + 1], '/' | '?' | '#'))
+                .collect();
+            let i = if !ends.is_empty() && ctx.rng.chance(2, 3) { *ctx.rng.pick(&ends[..]) } else { *ctx.rng.pick(&mb[..]) };
+            let sib = *ctx.rng.pick(siblings(chars[i]));
+            let mut o: String = chars[..i].iter().collect();
+            o.push(sib);
+            let rest: String = chars[i + 1..].iter().collect();
+            match ctx.rng.below(6) {
+                0 | 1 | 2 => o.push_str(&rest),
+                3 => {}
+                4 => {
+                    // keep query / fragment of the base only
+                    if let Some(k) = rest.find(['?', '#']) {
+                        o.push_str(&rest[k..]);
+                    }
+                }
+                _ => o.push_str(*ctx.rng.pick(&["/x", "?r", "#g", "/", "x", "/x?q"][..])),
+            }
+            (o, "mbsibling")
+        }
         0 | 1 => {
             // same document: same path, query / fragment vary
             let mut p = b.clone();
@@ -190,6 +245,37 @@ fn derive(ctx: &mut GenCtx, b: &P) -> (String, &'static str) {
     }
 }
 
+/// audit class: base = authority ending in a multi-byte character, EMPTY path, (mostly) a query; IRI continuing
+/// right after that authority (`iri[pseudoroot - 1..]` is then sliced inside the character)
+fn gen_authmb(ctx: &mut GenCtx) -> (String, String) {
+    let scheme = *ctx.rng.pick(&SCHEMES[..]);
+    let auth = *ctx.rng.pick(&["é", "€", "𝄞", "a€", "ab𝄟", "ê", "u@€", "€é", "é€", "₠:80", "€b"][..]);
+    let mut base = format!("{}://{}", scheme, auth);
+    if ctx.rng.chance(4, 5) {
+        base.push('?');
+        base.push_str(*ctx.rng.pick(&QUERIES[..]));
+    }
+    if ctx.rng.chance(1, 4) {
+        base.push('#');
+        base.push_str(*ctx.rng.pick(&FRAGS[..]));
+    }
+    let stem = format!("{}://{}", scheme, auth);
+    let mut iri = match ctx.rng.below(4) {
+        0 => {
+            // sibling of the last character of the authority
+            let mut cs: Vec<char> = stem.chars().collect();
+            let last = cs.len() - 1;
+            if let Some(s) = siblings(cs[last]).first() {
+                cs[last] = *s;
+            }
+            cs.into_iter().collect()
+        }
+        _ => stem,
+    };
+    iri.push_str(*ctx.rng.pick(&["/x", "/", "", "/x?q", "?r", "?q", "x", "/€", "//c", "/.", "/x:y", "#f", "/?q", "/#f", ":8"][..]));
+    (base, iri)
+}
+
 fn valid_pair(base: &str, iri: &str) -> bool {
     BaseIri::new(base).is_ok() && Iri::new(base).is_ok() && Iri::new(iri).is_ok()
 }
@@ -216,6 +302,68 @@ fn shape_stats(ctx: &mut GenCtx, base: &str, iri: &str) {
     if !base.contains("//") {
         ctx.stats.bump("shape.base_no_authority");
     }
+    // width of the character of the base that the common byte prefix ends in / at, and where that character is
+    if lcp < base.len() {
+        let mut st = lcp;
+        while !base.is_char_boundary(st) {
+            st -= 1;
+        }
+        let ch = base[st..].chars().next().unwrap();
+        let w = ch.len_utf8();
+        if w > 1 {
+            ctx.stats.bump(&format!("shape.diverge_at_{}octet_char", w));
+            if st < lcp {
+                ctx.stats.bump(&format!("shape.lcp_inside_{}octet_char", w));
+                let after = &base[st + w..];
+                if after.is_empty() || after.starts_with(['?', '#']) {
+                    // the character is the last one of the base's path or query
+                    ctx.stats.bump("shape.lcp_inside_last_char_of_path_or_query");
+                }
+            }
+        }
+    }
+    if let Ok(b) = BaseIri::new(base) {
+        let segs = b.path().split('/').count();
+        if segs >= 7 {
+            ctx.stats.bump("shape.base_path_ge7_segments");
+        }
+        if b.query().is_some_and(|q| q.contains('/')) {
+            ctx.stats.bump("shape.base_query_has_slash");
+        }
+        if b.path().is_empty() && b.query().is_some() && b.authority().is_some_and(|a| a.chars().last().is_some_and(|c| c.len_utf8() > 1)) {
+            ctx.stats.bump(&format!(
+                "shape.base_auth_ends_{}octet_empty_path_query",
+                b.authority().unwrap().chars().last().unwrap().len_utf8()
+            ));
+        }
+    }
+}
+
+/// which branch of the real `relativize` a case takes (evidence that the rare branches are reached)
+fn outcome_stats(ctx: &mut GenCtx, base: &str, n: u8, iri: &str) {
+    ctx.stats.bump(&format!("limit.{}", n));
+    let (Ok(b), Ok(i)) = (BaseIri::new(base), Iri::new(iri)) else { return };
+    let nslashes = b.path().matches('/').count();
+    if (n as usize) < nslashes && n >= 5 {
+        ctx.stats.bump("limit.ge5_and_below_depth");
+    }
+    let key = match catch(|| Relativizer::new(b, n).relativize(i).map(|r| r.to_string())) {
+        Err(_) => "outcome.panic".to_string(),
+        Ok(None) => "outcome.none".to_string(),
+        Ok(Some(r)) => {
+            let ups = count_dotdot(&r);
+            if ups > 0 {
+                format!("outcome.up{}", if ups >= 8 { "8+".to_string() } else { ups.to_string() })
+            } else if r.starts_with("./") {
+                "outcome.dotslash".to_string()
+            } else if r.is_empty() || r.starts_with(['?', '#']) {
+                "outcome.samedoc_ref".to_string()
+            } else {
+                "outcome.plain_tail".to_string()
+            }
+        }
+    };
+    ctx.stats.bump(&key);
 }
 
 fn family_seqs() -> Vec<String> {
@@ -295,9 +443,14 @@ pub fn generate(ctx: &mut GenCtx) {
     let mut tries = 0;
     while made < npairs && tries < npairs * 20 {
         tries += 1;
-        let b = gen_base(ctx);
-        let bs = b.render();
-        let (is, shape) = derive(ctx, &b);
+        let (bs, is, shape) = if ctx.rng.chance(1, 14) {
+            let (bs, is) = gen_authmb(ctx);
+            (bs, is, "authmb")
+        } else {
+            let b = gen_base(ctx);
+            let (is, shape) = derive(ctx, &b);
+            (b.render(), is, shape)
+        };
         if !valid_pair(&bs, &is) {
             ctx.stats.bump("gen.rejected_invalid");
             continue;
@@ -315,6 +468,8 @@ pub fn generate(ctx: &mut GenCtx) {
         }
         ctx.emit(&format!("z {} {} {}", hex(&bs), n1, hex(&is)));
         ctx.emit(&format!("z {} {} {}", hex(&bs), n2, hex(&is)));
+        outcome_stats(ctx, &bs, n1, &is);
+        outcome_stats(ctx, &bs, n2, &is);
         if made % 3 == 0 {
             ctx.emit(&format!("n {} {}", hex(&bs), n1));
             ctx.stats.bump("new.random");
@@ -323,7 +478,7 @@ pub fn generate(ctx: &mut GenCtx) {
 
     // closed family of DESIGN 4.17: up to 3 segments from FAMILY on both sides under a common prefix
     let seqs = family_seqs();
-    let prefixes = ["http://a/", "x:/", "x:r/", "http://a/p/q/", "http://é/"];
+    let prefixes = ["http://a/", "x:/", "x:r/", "http://a/p/q/", "http://é/", "http://€/𝄞/"];
     if ctx.thorough {
         let mut k = 0usize;
         for sb in &seqs {
@@ -362,6 +517,73 @@ fn count_dotdot(r: &str) -> usize {
     path.split('/').take_while(|s| *s == "..").count()
 }
 
+/// The shape of a panic message: digits dropped, cut at the first quotation mark (where the payload that depends
+/// on the input starts).
+fn skeleton(m: &str) -> String {
+    let cut = m.find(['"', '\'']).unwrap_or(m.len());
+    m[..cut].chars().filter(|c| !c.is_ascii_digit()).collect()
+}
+
+/// The two panics `relativize` is known to raise, PROVOKED here through the same library code rather than
+/// recognised by wording: (1) `IriRef::new_unchecked` on a string that is no IRI reference (debug assertions),
+/// (2) a `str` slice inside a multi-byte character. Renaming sophia's error type or a change of std's message
+/// changes probe and observed panic alike.
+fn panic_probes() -> &'static (Option<String>, Option<String>) {
+    static P: std::sync::OnceLock<(Option<String>, Option<String>)> = std::sync::OnceLock::new();
+    P.get_or_init(|| {
+        let invalid = catch(|| IriRef::new_unchecked(String::from(":b")).to_string()).err().map(|m| skeleton(&m));
+        let s = String::from("aé/x");
+        let k = std::hint::black_box(2usize);
+        let boundary = catch(move || s[k..].to_string()).err().map(|m| skeleton(&m));
+        (invalid, boundary)
+    })
+}
+
+fn panic_kind(m: &str) -> &'static str {
+    let (invalid, boundary) = panic_probes();
+    let sk = skeleton(m);
+    if invalid.as_deref() == Some(sk.as_str()) {
+        "invalid"
+    } else if boundary.as_deref() == Some(sk.as_str()) {
+        "boundary"
+    } else {
+        "other"
+    }
+}
+
+/// `relativize` through the other instantiations / accessors of the same type: `Relativizer<String>` (owned base),
+/// a clone, and `base()`; 1 = all agree with the `&str` instantiation
+fn generic_same(bs: &str, n: u8, is: &str, first: &Result<Option<String>, String>) -> bool {
+    let norm = |r: &Result<Option<String>, String>| match r {
+        Ok(x) => Ok(x.clone()),
+        Err(m) => Err(panic_kind(m)),
+    };
+    let Ok(owned) = BaseIri::new(bs.to_string()) else { return false };
+    let Ok(iri) = Iri::new(is) else { return false };
+    let rel = Relativizer::new(owned, n);
+    let base_ok = catch(std::panic::AssertUnwindSafe(|| rel.base().as_str() == bs)).unwrap_or(false);
+    let r2 = catch(std::panic::AssertUnwindSafe(|| rel.relativize(iri).map(|r| r.to_string())));
+    let rel3 = rel.clone();
+    let r3 = catch(std::panic::AssertUnwindSafe(|| rel3.relativize(iri).map(|r| r.to_string())));
+    base_ok && norm(&r2) == norm(first) && norm(&r3) == norm(first)
+}
+
+/// the positional reading of `Relativizer`'s derived `Debug` output (field names ignored): after the base string,
+/// two numbers, a list, one number
+fn positional(dbg: &str) -> Option<(String, String, String, String)> {
+    let tail = &dbg[dbg.rfind('"')? + 1..];
+    let (pre, rest) = tail.split_once('[')?;
+    let (list, post) = rest.split_once(']')?;
+    let nums = |s: &str| -> Vec<String> {
+        s.split(|c: char| !c.is_ascii_digit()).filter(|t| !t.is_empty()).map(|t| t.to_string()).collect()
+    };
+    let (a, c) = (nums(pre), nums(post));
+    if a.len() != 2 || c.len() != 1 {
+        return None;
+    }
+    Some((a[0].clone(), a[1].clone(), nums(list).join(","), c[0].clone()))
+}
+
 fn field<'a>(dbg: &'a str, name: &str, end: &str) -> Option<&'a str> {
     let i = dbg.rfind(name)?;
     let rest = &dbg[i + name.len()..];
@@ -392,7 +614,15 @@ pub fn exec(line: &str) -> String {
                             let sl: String = sl.chars().filter(|c| !c.is_whitespace()).collect();
                             format!("new=ok query_end={} path_end={} slashes=[{}] pseudoroot={}", qe, pe, sl, pr)
                         }
-                        _ => "new=unparsed".into(),
+                        _ => match positional(&d) {
+                            // a private field was renamed: read the derived Debug output by position
+                            Some((qe, pe, sl, pr)) => {
+                                format!("new=ok query_end={} path_end={} slashes=[{}] pseudoroot={}", qe, pe, sl, pr)
+                            }
+                            // the fields can no longer be read off (hand-written Debug …): nothing to compare; the
+                            // case counts as skipped (trivial), `z` requests still compare every output
+                            None => "skip=2 dbg=unparsed".into(),
+                        },
                     }
                 }
             }
@@ -406,19 +636,13 @@ pub fn exec(line: &str) -> String {
                 return "skip=1".into();
             };
             let r = catch(|| Relativizer::new(base.as_ref(), n).relativize(iri).map(|r| r.to_string()));
+            let gs = b01(generic_same(&bs, n, &is, &r));
             match r {
                 Err(m) => {
                     // `IriRef::new_unchecked` is `IriRef::new(..).unwrap()` when debug assertions are on (as in `cargo test`)
-                    let pk = if m.contains("InvalidIri") {
-                        "invalid"
-                    } else if m.contains("char boundary") {
-                        "boundary"
-                    } else {
-                        "other"
-                    };
-                    format!("rel=panic pk={} nopanic=0", pk)
+                    format!("rel=panic pk={} nopanic=0 gen_same={}", panic_kind(&m), gs)
                 }
-                Ok(None) => "rel=none nopanic=1 some=0".into(),
+                Ok(None) => format!("rel=none nopanic=1 some=0 gen_same={}", gs),
                 Ok(Some(rf)) => {
                     let res = catch(|| base.resolve(rf.as_str()).map(|i| i.to_string()));
                     let (res_s, resolves) = match &res {
@@ -428,13 +652,31 @@ pub fn exec(line: &str) -> String {
                     };
                     let isref = sophia_iri::is_relative_iri_ref(&rf);
                     let parents_ok = count_dotdot(&rf) <= n as usize;
+                    // the other entry points of resolve.rs must give the same answer as `resolve(&str)`:
+                    // `resolve(IriRef)` (unwraps: a panic there = Err here) and `resolve_into`
+                    let first: Option<String> = match &res {
+                        Ok(Ok(s)) => Some(s.clone()),
+                        _ => None,
+                    };
+                    let via_ref: Option<String> = match IriRef::new(rf.as_str()) {
+                        Ok(ir) => catch(|| base.resolve(ir).to_string()).ok(),
+                        Err(_) => first.clone(), // not an IRI reference (release builds only): route not applicable
+                    };
+                    let via_into: Option<String> = catch(|| {
+                        let mut buf = String::new();
+                        base.resolve_into(rf.as_str(), &mut buf).ok().map(|i| i.to_string())
+                    })
+                    .unwrap_or(None);
+                    let res_same = via_ref == first && via_into == first;
                     format!(
-                        "rel={} nopanic=1 some=1 res={} resolves={} isref={} parents_ok={}",
+                        "rel={} nopanic=1 some=1 res={} resolves={} isref={} parents_ok={} gen_same={} res_same={}",
                         hex(&rf),
                         res_s,
                         b01(resolves),
                         b01(isref),
-                        b01(parents_ok)
+                        b01(parents_ok),
+                        gs,
+                        b01(res_same)
                     )
                 }
             }
